@@ -92,6 +92,7 @@ type aStep struct {
 	Cfg     map[string]interface{} `json:"cfg"`
 	N       int                 `json:"n"`
 	Partial bool                `json:"partial"`
+	Calls   []bcCall            `json:"calls"` // op "bc": calls on the store's BlobCreator interface
 	TimeoutMS int               `json:"timeout_ms"` // the request's context is cancelled after this long
 	Idx     int                 `json:"idx"`        // index under which the session of an upload POST is remembered (steps inside par / async)
 	Mid     []aStep             `json:"mid"`   // executed after Split bytes of the body have been read by the handler
@@ -132,7 +133,24 @@ type aCase struct {
 	Steps []aStep `json:"steps"`
 }
 
+// one call of a store-level upload script: sessions are numbered in the order they are created
+type bcCall struct {
+	Fn     string `json:"fn"` // create | session | write | verify | chalg | info | close | cancel
+	Sess   int    `json:"sess"`
+	Alg    string `json:"alg"`
+	Digest string `json:"digest"`
+	B64    string `json:"b64"`
+}
+
+type bcOut struct {
+	OK     bool   `json:"ok"`
+	Err    string `json:"err,omitempty"`
+	Size   int64  `json:"size"`
+	Digest string `json:"digest"`
+}
+
 type aRes struct {
+	BC      []bcOut             `json:"bc,omitempty"`
 	Status  int                 `json:"status"`
 	Headers map[string][]string `json:"headers,omitempty"`
 	B64     string              `json:"b64,omitempty"`
@@ -550,6 +568,82 @@ func (e *aEnv) doHTTP(st aStep, idx int) (res aRes) {
 	return res
 }
 
+// runBC drives the store's upload interface directly: what two HTTP handlers working on one session do, in an order the
+// scheduler would have to choose
+func (e *aEnv) runBC(repoName string, calls []bcCall) []bcOut {
+	out := []bcOut{}
+	repo, err := e.s.store.RepoGet(context.Background(), repoName)
+	if err != nil {
+		return []bcOut{{Err: err.Error()}}
+	}
+	defer repo.Done()
+	var handles []store.BlobCreator
+	var ids []string
+	for _, c := range calls {
+		o := bcOut{}
+		var bc store.BlobCreator
+		if c.Fn != "create" {
+			if c.Sess < 0 || c.Sess >= len(handles) || handles[c.Sess] == nil {
+				o.Err = "no such session"
+				out = append(out, o)
+				continue
+			}
+			bc = handles[c.Sess]
+		}
+		var err error
+		switch c.Fn {
+		case "create":
+			opts := []store.BlobOpt{}
+			if c.Alg != "" {
+				opts = append(opts, store.BlobWithAlgorithm(digest.Algorithm(c.Alg)))
+			}
+			if c.Digest != "" {
+				opts = append(opts, store.BlobWithDigest(digest.Digest(c.Digest)))
+			}
+			var nbc store.BlobCreator
+			var id string
+			nbc, id, err = repo.BlobCreate(opts...)
+			handles = append(handles, nbc)
+			ids = append(ids, id)
+			bc = nbc
+		case "session":
+			// a second handle on the same session, as another request gets it
+			var nbc store.BlobCreator
+			nbc, err = repo.BlobSession(ids[c.Sess])
+			if err == nil {
+				handles[c.Sess] = nbc
+				bc = nbc
+			}
+		case "write":
+			b, _ := base64.StdEncoding.DecodeString(c.B64)
+			_, err = bc.Write(b)
+		case "verify":
+			err = bc.Verify(digest.Digest(c.Digest))
+		case "chalg":
+			err = bc.ChangeAlgorithm(digest.Algorithm(c.Alg))
+		case "info":
+		case "close":
+			err = bc.Close()
+		case "cancel":
+			err = bc.Cancel()
+		}
+		if err != nil {
+			o.Err = err.Error()
+		} else {
+			o.OK = true
+		}
+		if bc != nil && err == nil && (c.Fn == "write" || c.Fn == "info" || c.Fn == "create" || c.Fn == "verify" || c.Fn == "chalg") {
+			func() {
+				defer func() { _ = recover() }()
+				o.Size = bc.Size()
+				o.Digest = bc.Digest().String()
+			}()
+		}
+		out = append(out, o)
+	}
+	return out
+}
+
 func (e *aEnv) withRepo(name string, f func(r store.Repo) error) error {
 	r, err := e.s.store.RepoGet(context.Background(), name)
 	if err != nil {
@@ -601,6 +695,8 @@ func (e *aEnv) step(st aStep, idx int) (res aRes) {
 		res.Par = [][]aRes{out}
 	case "defaults":
 		res.Cfg = verifDefaults(st.Cfg)
+	case "bc":
+		res.BC = e.runBC(st.Repo, st.Calls)
 	case "crashat":
 		// from now on the mutating filesystem calls of the directory store are counted; the N-th one (N > 0) kills the process
 		store.VerifFS(e.rootDir(), st.N, st.Partial)
